@@ -165,7 +165,7 @@ pub fn partition(sim: &mut Sim, inputs: &[Vec<Val>], k: &Knobs, max_drain: usize
     if rel.iter().any(|r| r.iter().any(|b| b.len() >= 2)) && n_steps > 1 {
         sim.probe("multi_item_batch_and_several_ticks");
     }
-    (Plan { rel, max_drain, extra }, nonbenign)
+    (Plan { rel, max_drain, extra, pends: vec![] }, nonbenign)
 }
 
 /// A seeded permutation (Fisher-Yates over "which of the remaining items comes next";
